@@ -402,6 +402,14 @@ func (r *FnRun) callByContract(fr *Frame, st *State, ct *Contract, names []strin
 			vars[n] = args[i]
 		}
 	}
+	if fr.c != nil && fr.old != nil {
+		for _, cl := range fr.c.CallAssume[what] {
+			aenv := r.invEnv(fr, st)
+			aenv.what = "callassume " + what
+			r.assume(r.evalBool(cl.E, aenv))
+			r.note("ASSUMED before %s in %s: %s", what, shortName(r.name), cl.Src)
+		}
+	}
 	pre := st.clone()
 	env := &specEnv{st: st, old: pre, vars: vars, pkg: ct.Pkg, what: ct.Name, oldTop: st.top}
 	for _, cl := range ct.Requires {
